@@ -1099,3 +1099,10 @@ mut("first_flushed_block_not_indexed", ["C13"], "PAIR-13", file="src/tables/tabl
 mut("footer_handles_swapped", ["C13"], "PAIR-13", file="src/tables/table_builder.rs",
     old="""        let footer = Footer::new(metaindex_handle, index_block_handle);""",
     new="""        let footer = Footer::new(index_block_handle, metaindex_handle);""")
+
+# ---- round-3 misses: stale block handle, GC after scheduling in open, iterator capture before the lock
+mut("two_level_stale_block_handle", ["C04"], "PAIR-12", patch="two_level_stale_block_handle.diff",
+    note="data_block_handle survives while the block iterator is dropped: the first block is skipped on re-entry")
+mut("open_schedules_before_gc", ["C11"], "ORD-16", patch="open_schedules_before_gc.diff",
+    note="a compaction scheduled before the opener's GC can re-issue an orphan's file number, which the opener then unlinks")
+mut("new_iterator_memtable_before_lock", ["C04", "C05", "C03"], "LCK-", patch="new_iterator_memtable_before_lock.diff")
